@@ -2,13 +2,13 @@
 EXTENDS Parameters
 T(k, x) == [k |-> k, x |-> x]
 (* small alphabet for the exhaustive run *)
-SmallNames == <<"a", "b-c", "b_c">>
+SmallNames == <<"2th", "b-c", "b_c">>      \* in file (ASCII) order; "2th" is a legal name that is not a Python identifier
 SmallToks == <<T("int", 4), T("str_int", 4), T("str_padded", 1)>>      \* int id 4: an integer that no double represents
 (* smaller alphabet for the deeper exhaustive run of the thorough tier *)
 TinyNames == <<"b-c", "b_c">>
 TinyToks == <<T("str_int", 2), T("str_padded", 1)>>
 (* rich alphabet for simulation *)
-RichNames == <<"a", "b-c", "b_c", "z9">>
+RichNames == <<"2th", "a", "b-c", "b_c", "y.c", "z9">>
 RichToks == <<T("int", 1), T("int", 3), T("int", 4), T("str_int", 4), T("float", 0), T("float", 2), T("str_plain", 0), T("str_plain", 2),
               T("str_empty", 0), T("str_int", 2), T("str_float", 1), T("str_float", 3), T("str_padint", 1),
               T("str_padded", 1), T("str_inner", 0), T("none", 0)>>
